@@ -865,3 +865,58 @@ pub unsafe fn tail_pos_range_ok(h: &[u8], n: &[u8], pos: usize) -> Option<usize>
 pub unsafe fn tail_pos_relative_bad(h: &[u8], n: &[u8], pos: usize) -> Option<usize> {
     h[pos..].windows(n.len()).position(|w| w == n)
 }
+
+// ---------------------------------------------------------------------------------------------------------------
+// dirty-flag discipline (E-dirty)
+// ---------------------------------------------------------------------------------------------------------------
+pub struct DirtyDb {
+    pub items: Vec<u32>,
+    pub path: std::path::PathBuf,
+    dirty: bool,
+}
+
+impl DirtyDb {
+    pub fn dirty_save(&mut self) -> std::io::Result<()> {
+        if !self.dirty {
+            return Ok(());
+        }
+        let bytes: Vec<u8> = self.items.iter().flat_map(|v| v.to_le_bytes()).collect();
+        std::fs::write(&self.path, bytes)?;
+        self.dirty = false;
+        Ok(())
+    }
+
+    pub fn dirty_add_ok(&mut self, v: u32) {
+        self.items.push(v);
+        self.dirty = true;
+    }
+
+    pub fn dirty_pop_ok(&mut self) -> bool {
+        let Some(_) = self.items.pop() else {
+            return false;
+        };
+        self.dirty = true;
+        true
+    }
+
+    /// the early return for a value that is already present reorders the list and forgets the flag
+    pub fn dirty_touch_bad(&mut self, v: u32) -> bool {
+        if let Some(i) = self.items.iter().position(|x| *x == v) {
+            self.items.swap(0, i);
+            return true;
+        }
+        self.items.push(v);
+        self.dirty = true;
+        true
+    }
+
+    /// marked before the flush, mutated after it
+    pub fn dirty_flush_then_add_bad(&mut self, v: u32) -> std::io::Result<()> {
+        self.dirty = true;
+        if self.items.len() >= 4 {
+            self.dirty_save()?;
+        }
+        self.items.push(v);
+        Ok(())
+    }
+}
